@@ -2,8 +2,13 @@
 from __future__ import annotations
 
 import ast
+import atexit
 import copy
+import importlib.util
+import os
 import re
+import shutil
+import warnings
 
 import bridge
 import core
@@ -33,7 +38,10 @@ TRUSTED = ["Coq 8.16.1 kernel (coqc); no axioms (Print Assumptions: closed under
            "(hand-written literal_eval/is_identifier in the model, ASCII only), not modelled"]
 ASSUME = ["resolve_syntatic_sugar is the identity on the grammar (no comprehensions, no dataclass constructors)",
           "dictionary keys that are identifiers are ASCII (str.isidentifier is modelled on ASCII only)",
-          "lambdas are supplied as source strings or ast objects (the callable path is C04's capture pass, F19)",
+          "lambdas are supplied to the model as source strings or ast objects; capture-free Python callables (written in a generated "
+          "module whose globals are named like the lambda parameters, so every parameter hides one) are run on the implementation "
+          "only and judged by the same pass-through oracle - the capture pass in front of the follower is C04's model; a directly "
+          "called lambda `(lambda y: ..)(a)` is outside the callable form (the callable path resolves it, util_ast.parse_as_ast)",
           "attribute / method names are not attributes of Python's builtin constant classes (str, int, float, ...), which "
           "the follower treats as typed classes; the function name MetaData is not used inside lambdas",
           "a call whose callee is a subscript of an attribute is in the grammar only when the attribute's object is untyped "
@@ -41,7 +49,9 @@ ASSUME = ["resolve_syntatic_sugar is the identity on the grammar (no comprehensi
           "test_index_callback_bad_prop)"]
 RULE = ("corpus of probe expressions; all expressions of the C10 grammar up to size N over a pool with ast-meaningful names "
         "(seeded sample in the quick tier); seeded random expressions to depth 5; each through Select, SelectMany and Where, "
-        "as source string and as ast object; non-trivial = not a bare name/constant; distinct by ast.dump")
+        "as source string and as ast object; a corpus of shadowing patterns plus a seeded sample of the generated lambdas also as "
+        "Python callables (nested lambdas re-using the outer parameter name with the outer parameter used afterwards, module "
+        "globals of that name); non-trivial = not a bare name/constant; distinct by ast.dump")
 
 POOL = ["value", "elts", "keys", "args", "func", "attr", "id", "slice", "body", "_fields", "x", "pt", "kw", "zip", "ZIP",
         "Select", "Where", "First", "Count", "SelectMany", "a", "b"]
@@ -234,6 +244,131 @@ def normalise(case):
     return op, l, None
 
 
+def passthrough(op, ref, d, impl):
+    """the property on one outcome of the implementation -> (holds, what is wrong)"""
+    if impl[0] == "ok":
+        if impl[6] != d:
+            return False, "emitted lambda differs from the input: %s" % ast.unparse(bridge.from_sx(impl[1]))
+        if impl[3] or impl[4]:
+            return False, "events on an untyped stream"
+    elif impl[0] == "refuse":
+        if not designed(impl[1]):
+            return False, "ValueError that is not a designed refusal: %s" % impl[1][:120]
+        if op == "Where" and is_bool_shape(ref.body) and re.search(DESIGNED[0], impl[1]):
+            return False, "Where refuses a comparison / boolean combination"
+        if op != "Where" and re.search(DESIGNED[0], impl[1]):
+            return False, "Where gate outside Where"
+    else:
+        return False, "internal error %s" % impl[1]
+    return True, ""
+
+
+# ------------------------------------------------------------------ the callable form (implementation + oracle only)
+
+CALLABLE_GLOBALS = {p: 2.5 + i for i, p in enumerate(PARAMS)}      # module globals named like the lambda parameters
+CALLABLE_CORPUS = [
+    ("Select", "lambda e: e.x + 1"), ("Where", "lambda e: e.x > 10 and not e.b"),
+    ("Select", "lambda e: (e.a.Select(lambda j: j.pt * e.x), e.b)"), ("SelectMany", "lambda e: e.a.Select(lambda j: (j.pt, e.x))"),
+    # nested lambda re-uses the outer parameter name; outer parameter used before / after / both sides of it
+    ("Select", "lambda e: (e.b, e.a.Select(lambda e: e.pt))"), ("Select", "lambda e: (e.a.Select(lambda e: e.pt), e.b)"),
+    ("SelectMany", "lambda j: j.a.Where(lambda j: j.pt > 1).Select(lambda value: value.x / j.pt)"),
+    ("Where", "lambda e: e.a.Where(lambda e: e.pt > 30).Count() > 1 and e.x > 20"),
+    ("Where", "lambda value: value.Where(lambda value: value.a).Count() > value.b"),
+    ("Select", "lambda args: args.f(lambda args: args.x, args.pt)"), ("Select", "lambda id: [id.a.Select(lambda id: id), id]"),
+    ("Select", "lambda e: e.f(lambda j: j.Select(lambda e: e + j), e)"),
+    ("Select", "lambda e: e.a.Select(lambda j: j.b.Select(lambda e: e.x).Count() + e.x)"),
+    ("Select", "lambda e: {'a': e.a.Select(lambda e: e.pt), 'b': e}"), ("Select", "lambda e: e.x if e.a.Where(lambda e: e.b).Count() > 0 else e.pt"),
+]
+_CALL_DIR = os.path.join(core.WORK, "types-c10-%d" % os.getpid())
+atexit.register(lambda: shutil.rmtree(_CALL_DIR, ignore_errors=True))
+
+
+def free_names(n, bound=frozenset()):
+    if isinstance(n, ast.Name):
+        return set() if n.id in bound else {n.id}
+    if isinstance(n, ast.Lambda):
+        a = n.args
+        bound = bound | {x.arg for x in a.posonlyargs + a.args + a.kwonlyargs}
+        return free_names(n.body, bound)
+    out = set()
+    for c in ast.iter_child_nodes(n):
+        out |= free_names(c, bound)
+    return out
+
+
+def callable_form_ok(l: ast.Lambda) -> bool:
+    """capture-free in the generated module (no free name is one of its globals) and no directly called lambda"""
+    if free_names(l) & set(CALLABLE_GLOBALS):
+        return False
+    return not any(isinstance(n, ast.Call) and isinstance(n.func, ast.Lambda) for n in ast.walk(l))
+
+
+def shadows(l: ast.Lambda) -> bool:
+    "an inner lambda re-uses the name of a parameter of an enclosing lambda"
+    def rec(n, bound):
+        if isinstance(n, ast.Lambda):
+            ps = {x.arg for x in n.args.args}
+            if ps & bound:
+                return True
+            bound = bound | ps
+        return any(rec(c, bound) for c in ast.iter_child_nodes(n))
+    return rec(l, frozenset())
+
+
+def run_callables(ctx, m, todo, record=True):
+    """todo: [(op, source of the lambda)].  Every lambda is written as the argument of its operator on its own line of a
+    generated module, so that the library recovers its text from the file as it does for user code."""
+    if not todo:
+        return
+    os.makedirs(_CALL_DIR, exist_ok=True)
+    name = "c10_callables_%d" % ctx.rng.randrange(10 ** 9)
+    lines = ["# generated by harness/props/c10.py"]
+    lines += ["%s = %r" % kv for kv in CALLABLE_GLOBALS.items()]
+    for i, (op, src) in enumerate(todo):
+        lines += ["", "", "def case_%d(ds):" % i, "    return ds.%s(%s)" % (op, src)]
+    path = os.path.join(_CALL_DIR, name + ".py")
+    with open(path, "w") as f:
+        f.write("\n".join(lines) + "\n")
+    spec = importlib.util.spec_from_file_location(name, path)
+    mod = importlib.util.module_from_spec(spec)
+    with warnings.catch_warnings():
+        warnings.simplefilter("ignore", SyntaxWarning)     # generated grammar: `1()`, `'a'['b']` ...
+        spec.loader.exec_module(mod)
+    OS = m.ObjectStream
+    for i, (op, src) in enumerate(todo):
+        ref = ast.parse(src).body[0].value
+        d = ast.dump(ref)
+        m.log.clear()
+        ds = OS(ast.Name(id="ds", ctx=ast.Load()), m.ev("Any"))
+        fn = getattr(mod, "case_%d" % i)
+        impl = tc._finish_impl(m, lambda: fn(ds))
+        ctx.evaluations += 1
+        if not isinstance(ref.body, (ast.Name, ast.Constant)):
+            ctx.distinct.add("callable:" + d)
+        if record:
+            ctx.count("form", "callable")
+            ctx.count("callable_shape", "inner lambda re-uses an outer parameter name" if shadows(ref) else "no re-use")
+            ctx.count("callable_result", impl[0] if impl[0] != "crash" else "crash:" + impl[1])
+        ok, what = passthrough(op, ref, d, impl)
+        if not ok:
+            ctx.fail("failing-input", "%s(<python callable> %s) [module globals %s]: %s" % (op, src, ", ".join(sorted(CALLABLE_GLOBALS)), what),
+                     {"op": op, "lambda_dump": d, "lambda": src, "form": "callable", "oracle": "passthrough"},
+                     key=core.digest({"p": ID, "op": op, "e": d, "form": "callable"}))
+
+
+def callable_cases(ctx, cs):
+    todo = list(CALLABLE_CORPUS)
+    pool = [(op, ast.unparse(ref)) for op, ref, _s in cs if isinstance(ref, ast.Lambda) and callable_form_ok(ref)]
+    keep = [x for x in pool if shadows(ast.parse(x[1]).body[0].value)]
+    cap = ctx.budget(700, 8000)
+    rest = [x for x in pool if x not in set(keep)]
+    keep = keep[:cap]
+    todo += keep + ctx.rng.sample(rest, min(len(rest), max(0, cap - len(keep))))
+    ctx.notes.append("callable form: %d lambdas (%d with an inner lambda re-using an outer parameter name) of %d eligible"
+                     % (len(todo), sum(1 for _o, s_ in todo if shadows(ast.parse(s_).body[0].value)), len(pool) + len(CALLABLE_CORPUS)))
+    return todo
+
+
 def check_case(ctx, m, w, case, ans, record=True):
     op, ref, s = case
     item = m.ev("Any")
@@ -251,22 +386,7 @@ def check_case(ctx, m, w, case, ans, record=True):
     ctx.count("operator", op)
     ctx.count("form", "string" if s is not None else "ast")
     # --- oracle: the property, on the implementation's output
-    ok = True
-    what = ""
-    if impl[0] == "ok":
-        if impl[6] != d:
-            ok, what = False, "emitted lambda differs from the input: %s" % ast.unparse(bridge.from_sx(impl[1]))
-        elif impl[3] or impl[4]:
-            ok, what = False, "events on an untyped stream"
-    elif impl[0] == "refuse":
-        if not designed(impl[1]):
-            ok, what = False, "ValueError that is not a designed refusal: %s" % impl[1][:120]
-        elif op == "Where" and is_bool_shape(ref.body) and re.search(DESIGNED[0], impl[1]):
-            ok, what = False, "Where refuses a comparison / boolean combination"
-        elif op != "Where" and re.search(DESIGNED[0], impl[1]):
-            ok, what = False, "Where gate outside Where"
-    else:
-        ok, what = False, "internal error %s" % impl[1]
+    ok, what = passthrough(op, ref, d, impl)
     wit = {"op": op, "lambda_dump": d, "lambda": ast.unparse(ref), "form": "str" if s is not None else "ast"}
     if not ok:
         ctx.fail("failing-input", "%s(%s): %s" % (op, ast.unparse(ref), what), dict(wit, oracle="passthrough"),
@@ -291,6 +411,7 @@ def run(ctx):
         impl, mod = check_case(ctx, m, w, c, ans)
         if len(ctx.samples) < 6 and impl[0] != "ok":
             ctx.sample({"op": c[0], "input": ast.unparse(c[1]), "impl": tc.show(impl)[:160], "model": tc.show(mod)[:160]})
+    run_callables(ctx, m, callable_cases(ctx, cs))
     # default functions of the model's table == the live registry
     got = ctx.driver.call("ftdefault", [[]])[0]
     from func_adl import type_based_replacement as tbr
@@ -315,6 +436,9 @@ def run(ctx):
 def replay(ctx, wit):
     m = tc.Model(tc.EMPTY)
     w = m.world_sx()
+    if wit.get("form") == "callable":
+        run_callables(ctx, m, [(wit["op"], wit["lambda"])], record=False)
+        return
     ref = eval(wit["lambda_dump"], dict(vars(ast)))
     s = ast.unparse(ref) if wit.get("form") == "str" else None
     c = (wit["op"], ref, s)
